@@ -21,6 +21,7 @@ import (
 func init() {
 	subcommands["eng"] = engCmd
 	subcommands["c12"] = c12Cmd
+	subcommands["c17"] = c17Cmd
 }
 
 // the same case with the file alone (base offset 1) and at the case's offset
@@ -404,4 +405,20 @@ func engCmd(t *Term) string {
 		parts = append(parts, e.raw(false))
 	}
 	return OT("Eng", parts...)
+}
+
+// C17 k n small big: Context.CallCount of parsley.Parse(Sentence(root)) for both cases; the small one twice
+func c17Cmd(t *Term) string {
+	calls := func(c *Term) string {
+		return guard(func() string {
+			e := newEngEnv(c)
+			ctx, _, root, _ := e.fresh(true)
+			n, err := parsley.Parse(ctx, combinator.Sentence(root))
+			if n == nil || err != nil {
+				return ONone
+			}
+			return OSome(ON(ctx.CallCount()))
+		})
+	}
+	return OT("C17", calls(t.Args[2]), calls(t.Args[3]), calls(t.Args[2]))
 }
